@@ -5,11 +5,11 @@ From WF Require Import Base.Bytes.
 Definition tok := bytes.
 Definition w (s : string) : bytes := map N_of_ascii (list_ascii_of_string s).
 
-(* split on spaces *)
+(* split on spaces (rev_append: the library's rev is quadratic, and a token can be tens of kilobytes long) *)
 Fixpoint split_sp (s : bytes) (cur : bytes) : list tok :=
   match s with
-  | [] => match cur with [] => [] | _ => [rev cur] end
-  | c :: s' => if N.eqb c 32 then (match cur with [] => split_sp s' [] | _ => rev cur :: split_sp s' [] end)
+  | [] => match cur with [] => [] | _ => [rev_append cur []] end
+  | c :: s' => if N.eqb c 32 then (match cur with [] => split_sp s' [] | _ => rev_append cur [] :: split_sp s' [] end)
                else split_sp s' (c :: cur)
   end.
 Definition tokens (line : bytes) : list tok := split_sp line [].
